@@ -19,7 +19,12 @@ OTHER = {"C06-D": "C11",     # template field lost over dump / reload: C11's sta
          "C07-F": "C12",     # the sFlow worker queues its encode buffer without a copy: C12 / C13 (what is published)
          "C10-H": "C04",     # template withdrawal that cuts a probe chain: which template answers (C04); no race, no crash
          "C07-J": "C12",     # the sFlow worker gives short slices back to the receive-buffer pool: later datagrams are cut (C12 / C13)
-         "C13-J": "C16"}     # the mirror dispatcher gives short slices back to the pool (the mirror's path: C16)
+         "C13-J": "C16",     # the mirror dispatcher gives short slices back to the pool (the mirror's path: C16)
+         "C01-L": "C15",     # template cache loaded in the background: the collector dies when restarted under load (start-up: C15)
+         "C05-K": "C20",     # the element file's type names lower-cased by the loader: the two information models disagree (C20; C03 too)
+         "C05-L": "C03",     # strings cut at the first NUL by Interpret: the decode itself is wrong (C03 / C06), the JSON carries it faithfully
+         "C10-K": "C04",     # a per-message memo of looked-up templates: which definition decodes a data set (C04; C03 too)
+         "C12-L": "C10"}     # v9 templates renewed in place while another worker decodes with them: a data race on the cache (C10)
 # judged outside the properties (see DESIGN.md section 9): not expected to be detected
 OUTSIDE = {"C17-E"}
 
